@@ -103,25 +103,18 @@ func c08CheckNoCanary(t *rapid.T, op, key string, got []byte) {
 }
 
 func TestVerifC08_Confinement(t *testing.T) {
-	base0 := t.TempDir()
 	ctx := context.Background()
-	caseNo := 0
+	j, err := jail.New(t.TempDir(), false)
+	if err != nil {
+		t.Fatalf("setup: %v", err)
+	}
 	rapid.Check(t, func(t *rapid.T) {
-		caseNo++
-		base := filepath.Join(base0, fmt.Sprintf("c%d", caseNo))
-		if err := os.Mkdir(base, 0o700); err != nil {
-			t.Fatalf("setup: %v", err)
-		}
-		defer os.RemoveAll(base)
-		j, err := jail.New(base, rapid.Bool().Draw(t, "rootPartDecoy"))
+		// every case starts from the canonical jail (rebuilt only if the previous case changed it)
+		snap, err := j.Reset(rapid.Bool().Draw(t, "rootPartDecoy"))
 		if err != nil {
 			t.Fatalf("setup: %v", err)
 		}
 		b, err := NewLocalBackend(j.Root, zerolog.Nop())
-		if err != nil {
-			t.Fatalf("setup: %v", err)
-		}
-		snap, err := j.Snap()
 		if err != nil {
 			t.Fatalf("setup: %v", err)
 		}
@@ -317,6 +310,27 @@ func TestVerifKF_C08_root_part(t *testing.T) {
 			detail = append(detail, fmt.Sprintf("AppendReader(\".\") err=%v: %s", aerr, viol))
 		}
 	}
+	// Write with such a key puts its temp file into the PARENT of the root; it is removed again
+	// when the rename onto the root directory fails, so it is only observable if the process
+	// dies in between: kill the child on entry to its first rename.
+	if _, err := exec.LookPath("strace"); err == nil && os.Getenv("VERIF_BIN") != "" {
+		s := c08Scenario{Op: "write", Key: ".", Size: 10, StalePart: -1, seed: 1}
+		if j, err := c08Setup(&s); err == nil {
+			before, _ := j.Snap()
+			for _, rn := range []string{"renameat", "rename", "renameat2"} {
+				_, killed, _, _, rerr := c08Run(j, &s, []c08Sys{{Name: rn}}, 0)
+				if rerr != nil || !killed {
+					continue
+				}
+				if _, _, viol := j.CheckConfined(before); viol != "" {
+					reproduced = true
+					detail = append(detail, fmt.Sprintf("Write(\".\") killed before its rename: %s", viol))
+				}
+				break
+			}
+			os.RemoveAll(j.Base)
+		}
+	}
 	t.Logf("reproduced=%v\n%s", reproduced, strings.Join(detail, "\n"))
 	verifkit.KnownFinding(kfC08RootPart, reproduced, strings.Join(detail, " | "))
 }
@@ -369,12 +383,12 @@ const c08Syscalls = "open,openat,openat2,creat,write,pwrite64,writev,pwritev,pwr
 	"sync_file_range,copy_file_range,sendfile,splice,chmod,fchmod,fchmodat"
 
 type c08Scenario struct {
-	Op         string `json:"op"`          // write | writereader | append
-	Size       int    `json:"size"`        // bytes written by the operation
-	Key        string `json:"key"`         //
-	Overwrite  bool   `json:"overwrite"`   // final path already holds older content
-	StalePart  int    `json:"stale_part"`  // bytes of a pre-existing "<final>.part" (-1 none); for append: the prefix already staged
-	FreshDirs  bool   `json:"fresh_dirs"`  // parent directories do not exist yet
+	Op         string `json:"op"`         // write | writereader | append
+	Size       int    `json:"size"`       // bytes written by the operation
+	Key        string `json:"key"`        //
+	Overwrite  bool   `json:"overwrite"`  // final path already holds older content
+	StalePart  int    `json:"stale_part"` // bytes of a pre-existing "<final>.part" (-1 none); for append: the prefix already staged
+	FreshDirs  bool   `json:"fresh_dirs"` // parent directories do not exist yet
 	seed       int
 	intended   []byte
 	oldContent []byte
